@@ -199,6 +199,14 @@ func scenarios() []*mc.Scenario {
 				continue // one shard delegates to the single locker: exclusion programs run there
 			}
 			scs = append(scs, scenario(m, p))
+			if (m.name == "KeyLocker" || m.name == "TKeyLocker" || m.name == "TKeyLockerGrp/shards=2") && len(p.threads) <= 3 && (strings.HasPrefix(p.name, "excl/W|W|R") || strings.HasPrefix(p.name, "excl/R|R|W") || strings.HasPrefix(p.name, "multi/Locks[a,b]|Locks")) {
+				fp := p
+				fp.name += "/fine"
+				fp.pb = [2]int{1, 2}
+				sc := scenario(m, fp)
+				sc.Fine = true
+				scs = append(scs, sc)
+			}
 		}
 	}
 	return scs
